@@ -47,3 +47,7 @@ Definition file_keys (wg wp : list wentry) (phases : list string) (s : list (fie
 
 Definition keys_agree (wg wp : list wentry) (phases : list string) (s : list (field * val Z)) (actual : list string) : bool :=
   let m := file_keys wg wp phases s in subsetb m actual && subsetb actual m.
+
+(* the files the generated name function predicts for the names given to save = the files kawin wrote *)
+Definition names_agree (f : namefn) (names actual : list string) : bool :=
+  let m := map (apply_name f) names in subsetb m actual && subsetb actual m.
